@@ -378,16 +378,18 @@ pub fn expr_to_source_with_scope(
             return_expr,
         } => {
             let mut result = "do {".to_string();
-            for stmt in statements {
+            for (index, stmt) in statements.iter().enumerate() {
                 // Leading comments
                 for comment in &stmt.leading {
                     result.push_str(&format!("\n  {}", comment));
                 }
-                // Expression
-                result.push_str(&format!(
-                    "\n  {}",
-                    expr_to_source_with_scope(&stmt.node, scope)
-                ));
+                // Expression (a later statement starting with `-` would continue the line above)
+                let statement = expr_to_source_with_scope(&stmt.node, scope);
+                if index > 0 && statement.starts_with('-') {
+                    result.push_str(&format!("\n  ({})", statement));
+                } else {
+                    result.push_str(&format!("\n  {}", statement));
+                }
                 // Trailing comment
                 if let Some(trailing) = &stmt.trailing {
                     result.push_str(&format!("  {}", trailing));
